@@ -332,9 +332,9 @@ func (s *subsetter) SubsetGsub(old *gtab.Info) *gtab.Info {
 			}
 		}
 
-		if len(tNew.Subtables) > 0 {
-			res.LookupList = append(res.LookupList, tNew)
-		}
+		// Lookups which have become empty are kept, so that the lookup
+		// indices in the feature list stay valid.
+		res.LookupList = append(res.LookupList, tNew)
 	}
 
 	return &res
